@@ -41,11 +41,13 @@ structure Ref where
 deriving DecidableEq, Repr, Inhabited
 
 /-- one OSM element in the file: its typed id, the typed ids it references (way: its nodes,
-relation: its members, node: none), whether a node lies in the bounds, its tags (key,value codes) -/
+relation: its members, node: none), a node's position (x = lon, y = lat; integer grid, so the
+float comparisons of the Go code are exact), its tags (key,value codes) -/
 structure Obj where
   key : Ref
   refs : List Ref
-  inB : Bool
+  x : Int
+  y : Int
   tags : List (Nat × Nat)
 deriving DecidableEq, Repr, Inhabited
 
@@ -83,8 +85,29 @@ def hasTag (tags : List (Nat × Nat)) (want : List (Nat × List Nat)) : Bool :=
 
 def keepAll : Keep := ⟨fun _ => true, fun _ => false⟩
 def keepTags (want : List (Nat × List Nat)) : Keep := ⟨fun o => hasTag o.tags want, fun _ => false⟩
-/-- KeepBounds: nodes by position, ways and relations by already kept members -/
-def keepBounds : Keep := ⟨fun o => o.key.kind == .node && o.inB, fun o => o.key.kind != .node⟩
+/-- `geom.Bounds` (Min, Max) -/
+structure Rect where
+  minX : Int
+  minY : Int
+  maxX : Int
+  maxY : Int
+deriving DecidableEq, Repr, Inhabited
+
+/-- `(*Bounds).Empty` of bounds.go -/
+def Rect.empty (b : Rect) : Bool := decide (b.maxX < b.minX) || decide (b.maxY < b.minY)
+
+/-- `(*Bounds).Overlaps` of bounds.go -/
+def Rect.overlaps (b b2 : Rect) : Bool :=
+  !b.empty && !b2.empty && decide (b.minX ≤ b2.maxX) && decide (b.minY ≤ b2.maxY) &&
+    decide (b.maxX ≥ b2.minX) && decide (b.maxY ≥ b2.minY)
+
+/-- `geom.Point{X, Y}.Bounds()` = `NewBoundsPoint` -/
+def pointRect (x y : Int) : Rect := ⟨x, y, x, y⟩
+
+/-- KeepBounds(b): nodes by `b.Overlaps(Point{Lon, Lat}.Bounds())`, ways and relations by already
+kept members -/
+def keepBounds (b : Rect) : Keep :=
+  ⟨fun o => o.key.kind == .node && b.overlaps (pointRect o.x o.y), fun o => o.key.kind != .node⟩
 
 /-- worker-local control state of `processX(obj)` -/
 inductive Task
